@@ -258,7 +258,7 @@ def run(ctx):
         if ctx.tier == 'quick':
             hw_sel = hw; nrand, stmt = 6, 4
         else:
-            core = [hw[0], hw[3], hw[10], hw[16]]       # every shard: sets in which the loud outcome certainly occurs
+            core = [hw[0], hw[1], hw[2], hw[10], hw[16]]    # every shard: sets in which the loud outcome certainly occurs
             hw_sel = core + [h for i, h in enumerate(hw) if i % ctx.nshards == ctx.shard and h not in core]
             nrand, stmt = 16, 6
         for sessions in hw_sel:
@@ -278,7 +278,7 @@ def run(ctx):
     ctx.floor('obs.repeated_collection', 150)
     ctx.floor('obs.stale_but_stable', 100)
     # floors are evaluated per shard
-    ctx.floor('session.reader.raised.UnrepeatableReadError', 30 if ctx.nshards == 1 else 8)
+    ctx.floor('session.reader.raised.UnrepeatableReadError', 30 if ctx.nshards == 1 else 6)
 
 
 def replay(ctx, witness):
